@@ -3,6 +3,7 @@
 From Coq Require Import List NArith ZArith.
 From Coq.Strings Require Import Byte.
 From SP Require Import Bytes Params Msgpack Crypto Errors Packets Chunker Rand Sign Verify SignProofs.
+From SP Require Import BaseX Encodings Armor ArmorProofs ArmoredForms.
 Import ListNotations.
 
 Section C05.
@@ -37,6 +38,16 @@ Theorem C05_forms_agree (v : version) (sk : bytes) (pieces : list bytes) (r : rn
 Proof. exact (sign_stream_oneshot c v sk pieces r). Qed.
 End C05.
 
+(* BINARY AND ARMORED FORMS AGREE: the armored all-at-once entry point is the binary one composed
+   with dearmoring; on the armored form of ANY binary message (genuine or not) it returns exactly
+   what the binary entry point returns on that message, plus the brand. *)
+Theorem C05_armored_form_agrees (c : crypto) (vd : validator) (kr : sigring) (wire brand : bytes) :
+  brand_ok brand ->
+  dearmor62_verify c vd kr (armor62_seal wire mt_attached brand) =
+  bind (verify_all c vd kr wire) (fun r => Ok (fst r, snd r, brand)).
+Proof. exact (armored_verify_agrees c vd kr wire brand). Qed.
+
+Print Assumptions C05_armored_form_agrees.
 Print Assumptions C05_roundtrip.
 Print Assumptions C05_unknown_signer.
 Print Assumptions C05_forms_agree.
